@@ -137,12 +137,60 @@ def run_case(mod, case, fname):
     return dict(case, out=out, obs=obs)
 
 
+PAIR_SRC = """
+
+def pairfn(tag):
+    yield tag + '1'
+    yield tag + '2'
+"""
+
+
+def run_pair(mod, case):
+    """several generator activations of pairfn alive at once under the wrapper probe pairfn(!#enter, !!#exit); every event is
+    attributed to the instance the driver is acting on at that moment"""
+    from ptera import probing
+    events, now = [], [""]
+    its, started, finished = {}, set(), set()
+    p = probing("pairfn(!#enter, !!#exit)", env={"pairfn": mod.pairfn}, raw=True)
+    p.subscribe(lambda d: events.append([now[0], d["$wrap"]["step"], d["$wrap"]["id"]]))
+    with p:
+        for i, act in case["hist"]:
+            now[0] = i
+            if i not in its:
+                its[i] = mod.pairfn(i)
+            try:
+                if act == "next":
+                    started.add(i)
+                    next(its[i])
+                elif act == "close":
+                    its[i].close()
+                    finished.add(i)
+                else:
+                    its[i] = None
+                    gc.collect()
+                    finished.add(i)
+            except StopIteration:
+                finished.add(i)
+        still = sorted(started - finished)
+        n = len(events)
+        # the instances that are still suspended are dropped one by one at the end (their end events are not part of the case)
+        for i in still:
+            now[0] = i
+            its[i] = None
+            gc.collect()
+    ids = {}
+    ev = [[e[0], e[1], ids.setdefault(e[2], len(ids) + 1)] for e in events[:n]]       # identities renumbered in order of appearance
+    return dict(case, events=ev, still=still, started=len(started))
+
+
 def main():
     cases = json.load(open(sys.argv[1]))
     work = sys.argv[3]
     keys = {}
-    src = ["G = 'Gv'\nH = 'Hv'\n\n\nclass E(Exception):\n    pass\n\n\nclass T(Exception):\n    pass\n\n"]
+    src = ["G = 'Gv'\nH = 'Hv'\n\n\nclass E(Exception):\n    pass\n\n\nclass T(Exception):\n    pass\n\n", PAIR_SRC]
     for c in cases:
+        if "hist" in c:
+            continue
         k = key(c["cfg"])
         if k not in keys:
             keys[k] = f"f{len(keys)}"
@@ -154,7 +202,7 @@ def main():
     mod = importlib.util.module_from_spec(spec)
     sys.modules[spec.name] = mod
     spec.loader.exec_module(mod)
-    res = [run_case(mod, c, keys[key(c["cfg"])]) for c in cases]
+    res = [run_pair(mod, c) if "hist" in c else run_case(mod, c, keys[key(c["cfg"])]) for c in cases]
     json.dump(res, open(sys.argv[2], "w"))
 
 
